@@ -117,11 +117,15 @@ class _Control(BaseException):
 EXC_CLASSES = [RuntimeError, KeyboardInterrupt, _Control, GeneratorExit, SystemExit, ArithmeticError]
 # values an unknown option name is passed with: the name alone decides that the call is rejected (seeded change C14-8)
 BAD_VALUES = [1, None, 0, False, "", ()]
-VARIANT = {"exc": RuntimeError, "decorator": False, "bad_value": 1}
+# names an unknown option goes by: far from every real option, or one edit away from one (seeded change C14-12: a "did you
+# mean" hint that raised TypeError exactly when a close match exists)
+BAD_NAMES = ["no_such_option", "display_revers", "sort_grade", "retain_name", "default_varnames", "Display_graded",
+             "retain-names", "displaygraded", "sort_reversed", "x"]
+VARIANT = {"exc": RuntimeError, "decorator": False, "bad_value": 1, "bad_name": "no_such_option"}
 
 
 def kw_of(pairs):
-    return {k: (VARIANT["bad_value"] if k == "no_such_option" else v) for k, v in pairs}
+    return {(VARIANT["bad_name"] if k == "no_such_option" else k): (VARIANT["bad_value"] if k == "no_such_option" else v) for k, v in pairs}
 
 
 def exec_impl(prog, log, defaults):
@@ -194,10 +198,11 @@ def check_one(ctx, seq, prog, model, saved, shipped, variant=0):
     VARIANT["exc"] = EXC_CLASSES[variant % len(EXC_CLASSES)]
     VARIANT["decorator"] = (variant // len(EXC_CLASSES)) % 2 == 1
     VARIANT["bad_value"] = BAD_VALUES[(variant // (2 * len(EXC_CLASSES)) + variant) % len(BAD_VALUES)]
+    VARIANT["bad_name"] = BAD_NAMES[(variant * 7 + variant // 3) % len(BAD_NAMES)]
     log, outcome, final = run_impl(prog, saved, shipped)
     case = {"events": list(seq), "prog": prog, "variant": variant,
             "spelling": {"exception": VARIANT["exc"].__name__, "decorator": VARIANT["decorator"],
-                         "unknown_option_value": repr(VARIANT["bad_value"])}}
+                         "unknown_option_value": repr(VARIANT["bad_value"]), "unknown_option_name": VARIANT["bad_name"]}}
     tags = ["history"]
     init = opts_key(saved)
     mlog = [sorted(map(tuple, o)) for o in model["log"]]
